@@ -4,6 +4,7 @@ theorem C01_total on the model.  Purity / determinism / shape / mask are facts a
 objects: observed here with byte-level snapshots of every argument and repeated calls."""
 from __future__ import annotations
 
+import copy
 import pickle
 import warnings
 
@@ -123,13 +124,58 @@ def observe(case, carriers, rng):
         o["deterministic"] = False
         o["repeat_error"] = type(e).__name__
     o["mutated"] = o["mutated"] or snap(kw) != before
+    # the caller refills its buffers IN PLACE (same array / list objects, other contents) and calls again: the answer
+    # must be the one fresh copies of the new contents get — nothing may be remembered by object identity
+    try:
+        refilled = refill_in_place(kw)
+        if refilled:
+            fresh = {k: (copy.deepcopy(v) if k in refilled else v) for k, v in kw.items()}
+            ra = rb = None
+            try:
+                ra = sut.canon_result(call(f, kw))["flags"]
+            except Exception as e:  # noqa: BLE001
+                ra = type(e).__name__
+            try:
+                rb = sut.canon_result(call(f, fresh))["flags"]
+            except Exception as e:  # noqa: BLE001
+                rb = type(e).__name__
+            o["refilled"] = sorted(refilled)
+            if ra != rb:
+                o["buffer_reuse"] = {"same_objects_refilled": ra, "fresh_copies": rb}
+    except Exception as e:  # noqa: BLE001
+        o["refill_error"] = f"{type(e).__name__}: {e}"
     return o
+
+
+def refill_in_place(kw):
+    """Give the time axis three times its steps and reverse the data, writing into the SAME objects."""
+    done = set()
+    for k, v in kw.items():
+        if isinstance(v, np.ndarray) and not isinstance(v, np.ma.MaskedArray) and v.ndim == 1 and v.size >= 2 and v.flags.writeable:
+            if k == "tinp" and v.dtype.kind in "Mif":
+                v[:] = v[0] + (v - v[0]) * 3
+                done.add(k)
+            elif k != "tinp" and v.dtype.kind == "f":
+                v[:] = v[::-1].copy()
+                done.add(k)
+        elif isinstance(v, list) and len(v) >= 2 and k in ("tinp", "inp", "zinp", "lon", "lat"):
+            if k == "tinp":
+                try:
+                    v[:] = [v[0] + (x - v[0]) * 3 for x in v]
+                    done.add(k)
+                except TypeError:
+                    pass
+            else:
+                v[:] = v[::-1]
+                done.add(k)
+    return done
 
 
 def run(out: Outcome, drv):
     out.rule = ("for each of the 11 test functions: lengths 0,1,2,3 with every missing placement (exhaustive) then seeded cases "
                 "of length <= 12 (quick) / 40 (thorough), valid parameters only (malformed ones are C03/C09/... business), several "
                 "data/time carriers; observed: exception, length, flag alphabet, shape, mask, byte-level snapshot of every "
+                "argument, and a call on the SAME argument objects after the caller refilled them in place vs fresh copies; snapshot of every "
                 "argument before/after, repeat call, repeat after other tests ran on the same argument objects; non-trivial = "
                 ">= 2 distinct flags in the result")
     n = 350 if out.tier == "quick" else 8000
@@ -181,6 +227,11 @@ def run(out: Outcome, drv):
                     bad.append("repeated call returned different flags")
             if o.get("mutated"):
                 bad.append("an argument object was modified by the call")
+            if o.get("buffer_reuse"):
+                bad.append(f"after the caller refilled {o.get('refilled')} in place, the same objects get {o['buffer_reuse']['same_objects_refilled']} "
+                           f"but fresh copies of the same contents get {o['buffer_reuse']['fresh_copies']}")
+            if o.get("refilled"):
+                out.tags["buffers-refilled-in-place"] += 1
             if bad:
                 out.violation(f"{WHAT}: {fn}: " + "; ".join(bad),
                               {"fn": fn, "case": jsonable(c), "carriers": [ca, tc, sk], "observed": o, "model": a["model"],
